@@ -260,6 +260,33 @@ func checkC19(c *km.Ctx) {
 			guarded := km.InstrDominates(del, add) && st.All(func(k km.Conj) bool { return s.Holds(k, primErrNilCall("delete ok", dc, 1)) })
 			commentOK := mentionsField(dc.Common().Args[0], "Comment")
 			r.Add("R-C19-3", km.FuncName(fn), "replace before add", posOf(c, add), "deleteDuplicateEntries(new certificate's comment) dominates Add and its error aborts", sprintf("dominates+err-nil=%v comment-of-new-cert=%v", guarded, commentOK), guarded && commentOK)
+			// the label is final when it is used for the removal: nothing writes a Comment of an added key afterwards
+			late := ""
+			km.Instrs(fn, func(in ssa.Instruction) {
+				st, isSt := in.(*ssa.Store)
+				if !isSt {
+					return
+				}
+				fa, isFA := st.Addr.(*ssa.FieldAddr)
+				if !isFA || fieldNameOf(fa) != "Comment" || !strings.HasSuffix(km.NamedTypeOf(fa.X.Type()), "ssh/agent.AddedKey") {
+					return
+				}
+				after := false // st can execute after del
+				if st.Block() == del.Block() {
+					after = km.InstrDominates(del, st)
+				}
+				if !after {
+					for _, sb := range del.Block().Succs {
+						if km.ReachableBlocks(sb, nil)[st.Block()] {
+							after = true
+						}
+					}
+				}
+				if after {
+					late = posOf(c, st)
+				}
+			})
+			r.Add("R-C19-3", km.FuncName(fn), "label final before removal", posOf(c, add), "no write to the added key's Comment after it was used to remove the earlier certificates", "late write: "+late, late == "")
 		}
 	}
 	if fn := c.MustFunc("R-C19-3", "lib/client/sshagent", "deleteDuplicateEntries"); fn != nil {
